@@ -413,6 +413,27 @@ def prefix_grid():
               [f"withdraw owner={O1} prov=-", f"withdraw owner={O2} prov={P1}", f"withdraw owner={O2} prov={PQ}"]]
     for i, o in enumerate(orders):
         out.append((f"grid:prefix:withdraw{i}", base + o + ["endblock dt=5000000000"]))
+    # an owner that is its own provider and owns a second provider as well (the ordinary deployment: provider = owner);
+    # both earn in both orders, the owner has a withdrawal address, then per-provider and whole-owner withdrawals
+    W = "0c" * 20
+    self_base = [genesis(), f"fund acct={O1} amt=1000000", f"fund acct={C1} amt=100000",
+                 f"define name=svc author={O1} schema=ok",
+                 f"bind svc=svc prov={O1} owner={O1} dep=10000 price=5stake promT=- promV=- qos=1",
+                 f"bind svc=svc prov={P1} owner={O1} dep=10000 price=20stake promT=- promV=- qos=1",
+                 f"setwd owner={O1} addr={W}",
+                 f"call tx={tx(0xC14)} idx=0 svc=svc provs={P1},{O1} cons={C1} cap=100 timeout=2 super=0 rep=1 freq=2 total=2 input=ok",
+                 "endblock dt=5000000000"]
+    for i, first in enumerate([0, 1]):
+        who = [P1, O1]
+        h = self_base + [
+            f"respond req={req_id(0xC14, 1, 1, first)} prov={who[first]} code=200 out=valid",
+            f"respond req={req_id(0xC14, 1, 1, 1 - first)} prov={who[1 - first]} code=200 out=valid",
+            "endblock dt=5000000000", "endblock dt=5000000000",
+            f"respond req={req_id(0xC14, 2, 3, 1 - first)} prov={who[1 - first]} code=200 out=valid",
+            f"withdraw owner={O1} prov={who[first]}",
+            f"respond req={req_id(0xC14, 2, 3, first)} prov={who[first]} code=200 out=valid",
+            f"withdraw owner={O1} prov=-", "endblock dt=5000000000"]
+        out.append((f"grid:prefix:self-owned{i}", h))
     return out
 
 
